@@ -252,6 +252,10 @@ def o_mixed(ctx):
         "executor": dict(executor=create_executor("single-threaded")),
         "storage_options": dict(storage_options={"x": 1}),
         "zarr_compressor": dict(zarr_compressor=None),
+        # both specs name the same executor and differ only in its options ("__s0__" = what the first spec gets instead of base)
+        "executor_options": dict(executor_name="threads", executor_options={"max_workers": 4},
+                                 __s0__=dict(executor_name="threads", executor_options={"max_workers": 1})),
+        "executor_name": dict(executor_name="threads", __s0__=dict(executor_name="single-threaded")),
     }
     s0 = cubed.Spec(**base)
     names = [("xp", n) for n in xp.__all__] + [("cubed", n) for n in cubed.__all__] + [("linalg", n) for n in getattr(xp.linalg, "__all__", dir(xp.linalg)) if not n.startswith("_")]
@@ -273,8 +277,9 @@ def o_mixed(ctx):
                 continue
             table[f"{ns}.{name}"] = tname
             for field, delta in variants.items():
-                s1 = cubed.Spec(**{**base, **delta})
-                specs = [s0] + [s1] * (len(kinds) - 1)
+                s0v = cubed.Spec(**{**base, **delta["__s0__"]}) if "__s0__" in delta else s0
+                s1 = cubed.Spec(**{**base, **{k_: v_ for k_, v_ in delta.items() if k_ != "__s0__"}})
+                specs = [s0v] + [s1] * (len(kinds) - 1)
                 desc = {"function": f"{ns}.{name}", "template": tname, "field": field}
                 ctx.evaluations += 1
                 try:
@@ -296,7 +301,7 @@ def o_mixed(ctx):
                     nodes = set(o._plan.dag.nodes)
                     dep = [n for n in innames if n in nodes]
                     sp = {id(a.spec) for a in args if a.name in dep}
-                    if len({(a.spec == s0) for a in args if a.name in dep}) > 1:
+                    if len({(a.spec is s0v) for a in args if a.name in dep}) > 1:
                         offending.append(o.name)
                 if offending:
                     if name in EAGER_INDEX_OK:
@@ -308,8 +313,9 @@ def o_mixed(ctx):
             break
     # compute / store / visualize over several arrays
     for field, delta in variants.items():
-        s1 = cubed.Spec(**{**base, **delta})
-        a, b = mk_arrays(s0, "2d"), mk_arrays(s1, "2d")
+        s0v = cubed.Spec(**{**base, **delta["__s0__"]}) if "__s0__" in delta else s0
+        s1 = cubed.Spec(**{**base, **{k_: v_ for k_, v_ in delta.items() if k_ != "__s0__"}})
+        a, b = mk_arrays(s0v, "2d"), mk_arrays(s1, "2d")
         for nm, fn in (("compute", lambda: cubed.compute(xp.negative(a), xp.negative(b))),
                        ("visualize", lambda: cubed.visualize(xp.negative(a), xp.negative(b), filename=os.path.join(tempfile.gettempdir(), f"c18_vis_{os.getpid()}"))),
                        ("store", lambda: cubed.store([xp.negative(a), xp.negative(b)], [zarr.storage.MemoryStore(), zarr.storage.MemoryStore()])),
